@@ -44,6 +44,10 @@ func exec(op string) string {
 }
 
 func main() {
+	if len(os.Args) >= 3 && os.Args[1] == "e2e" && os.Args[2] == "deep" {
+		c05frame.DeepChild(os.Args[3:])
+		return
+	}
 	if len(os.Args) >= 2 && os.Args[1] == "e2e" {
 		c05disp.E2EMain(os.Args[2:])
 		return
